@@ -13,8 +13,11 @@ def recognizers():
         from recognizers_date_time import DateTimeRecognizer
         from recognizers_sequence import SequenceRecognizer
         from recognizers_choice import ChoiceRecognizer
-        _RECS.update(Number=NumberRecognizer(), NumberWithUnit=NumberWithUnitRecognizer(), DateTime=DateTimeRecognizer(),
-                     Sequence=SequenceRecognizer(), Choice=ChoiceRecognizer())
+        # lazy_initialization=False: (despite its name) the constructor then does NOT build every model; each model is built
+        # by the first get_model() that asks for it
+        mk = lambda cls: cls(lazy_initialization=False)
+        _RECS.update(Number=mk(NumberRecognizer), NumberWithUnit=mk(NumberWithUnitRecognizer), DateTime=mk(DateTimeRecognizer),
+                     Sequence=mk(SequenceRecognizer), Choice=mk(ChoiceRecognizer))
     return _RECS
 
 
